@@ -163,3 +163,36 @@ Definition pts_of (g : geom) : list pt :=
   | MultiLineString ls => concat ls
   | MultiPolygon ps => concat (map (@concat pt) ps)
   end.
+
+(* ---- structural equality (coordinates compared with ==) ---- *)
+Fixpoint pts_eqb (a b : list pt) : bool :=
+  match a, b with
+  | [], [] => true
+  | x :: a', y :: b' => pt_eqb x y && pts_eqb a' b'
+  | _, _ => false
+  end.
+Fixpoint ptss_eqb (a b : list (list pt)) : bool :=
+  match a, b with
+  | [], [] => true
+  | x :: a', y :: b' => pts_eqb x y && ptss_eqb a' b'
+  | _, _ => false
+  end.
+Fixpoint ptsss_eqb (a b : list (list (list pt))) : bool :=
+  match a, b with
+  | [], [] => true
+  | x :: a', y :: b' => ptss_eqb x y && ptsss_eqb a' b'
+  | _, _ => false
+  end.
+Definition geom_eqb (a b : geom) : bool :=
+  match a, b with
+  | TimeStamp t, TimeStamp t' => qeqb t t'
+  | TimeInterval s e, TimeInterval s' e' => qeqb s s' && qeqb e e'
+  | Point t f, Point t' f' => qeqb t t' && qeqb f f'
+  | LineString l, LineString l' => pts_eqb l l'
+  | Polygon r, Polygon r' => ptss_eqb r r'
+  | BBox s lo e hi, BBox s' lo' e' hi' => qeqb s s' && qeqb lo lo' && qeqb e e' && qeqb hi hi'
+  | MultiPoint l, MultiPoint l' => pts_eqb l l'
+  | MultiLineString l, MultiLineString l' => ptss_eqb l l'
+  | MultiPolygon p, MultiPolygon p' => ptsss_eqb p p'
+  | _, _ => false
+  end.
